@@ -39,6 +39,8 @@ def rules(ctx):
     from .C14 import no_module_state
     ctx.rule('R18.7', "no function writes module-level state (memo / registry): results independent of earlier calls", floor=1)
     no_module_state(ctx, 'R18.7')
+    from .C14 import derived_fields as _df
+    _df(ctx, 'R18.7')      # ... nor keeps derived state on a model that some mutator forgets (stale memo)
     ctx.rule('R18.8', "squash_key sorts labels with ordering_key on every path: subgraph / subvalue look partial keys up by their canonical form", floor=2)
     from .C05 import canonical_order
     canonical_order(ctx, 'R18.8')
